@@ -73,6 +73,9 @@ def run(rep, tier, seed):
                        "executed on the real File under the controlled scheduler (thread status sets compared after "
                        "each step); real-scale sessions run under seeded random schedules with exact deadlock/livelock "
                        "verdicts. distinct_nontrivial = distinct (state, thread) edges replayed")
+    # the stream stage alone: every order relation of read size / chunk / container / buffer (StreamConc)
+    from checks.c15 import conc_part
+    conc_part(rep, tier)
     SC.model_and_replay(rep, "r", SC.read_grid(tier), "c06_r_" + tier, ["DeadlockFree"], key="read")
     SC.model_and_replay(rep, "w", SC.write_grid(tier), "c06_w_" + tier, ["DeadlockFree"], key="write")
     # M2: medium-size sessions under seeded schedules, every recorded step validated by TLC against the spec
